@@ -18,10 +18,19 @@ Record req := mkReq {
   r_auth_pass : option text;
   r_maxred : option Z;
   r_follow : option bool;
-  r_ua : option text
+  r_ua : option text;
+  r_defmax : option Z     (* the client's defaults["max_redirects"] (AsyncHTTPClient(defaults=...)); None: not
+                             overridden, the built-in HTTPRequest._DEFAULTS value 5 applies.  The _RequestProxy
+                             that run()/finish() see is the pair (request, client defaults). *)
 }.
 
-Definition maxred_of (r : req) : Z := match r_maxred r with Some z => z | None => 5%Z end.
+(* self.request.max_redirects through the _RequestProxy: the request's own value, else the client's
+   default, else the built-in default *)
+Definition maxred_of (r : req) : Z :=
+  match r_maxred r with
+  | Some z => z
+  | None => match r_defmax r with Some d => d | None => 5%Z end
+  end.
 Definition follow_of (r : req) : bool := match r_follow r with Some b => b | None => true end.
 
 Inductive rerr := RValueError | RKeyError | RAssertionError | RUnmodelled.
@@ -195,7 +204,7 @@ Definition redirect_request (orig : text) (r : req) (h : hstate) (code : Z) (joi
                   else (r_method r, r_body r, h3) in
                 match copy h4 with                            (* fetch(): HTTPHeaders(request.headers) *)
                 | (RUnit, h5) =>
-                    FRedirect (mkReq url m b h5 au ap (Some (maxred_of r - 1)%Z) (r_follow r) (r_ua r))
+                    FRedirect (mkReq url m b h5 au ap (Some (maxred_of r - 1)%Z) (r_follow r) (r_ua r) (r_defmax r))
                 | _ => FStuck
                 end
             | _ => FRaise
